@@ -84,6 +84,38 @@ def handleTplh (fields : List String) : String :=
         | _ => "bad-input"
   | _ => "bad-input"
 
+def hopOf (s : String) : Option HOp :=
+  if s = "list" then some .list else if s = "listop" then some .listop
+  else if s = "rangeop" then some .rangeop else if s = "bopnr" then some .bopnr
+  else if s = "bopr" then some .bopr else none
+
+def showHOut : HOut Nat → String
+  | .lst r => showH (fun l => showVp 1000 (.list l)) r
+  | .visited vs p => "visited " ++ showVp 1000 (.list vs) ++ " panic=" ++ (if p then "1" else "0")
+  | .val r => showH (showVp 1000) r
+
+/-- `tplh2 <ops,…> <value> …`: successive helper calls on the same tree. -/
+def handleTplh2 (fields : List String) : String :=
+  match fields with
+  | opsS :: vs :: _ =>
+    match sxParse (sxTokens vs) with
+    | none => "bad-input"
+    | some sx =>
+      let fuel := vs.length + 2
+      let names := opsS.splitOn ","
+      if names.all (fun n => n = "bexnr" ∨ n = "bexr") then
+        match sxToVE fuel sx with
+        | some (.list inp) =>
+          " ; ".intercalate ((seqExprOuts fuel (names.map (· = "bexr")) inp).map (showH showE))
+        | _ => "bad-input"
+      else
+        match mapM? hopOf names, sxToV fuel sx with
+        | some ops, some (.list inp) =>
+          let fn := fun (o : Nat) (x y : V Nat) => V.list [.tok o, x, y]
+          " ; ".intercalate ((seqOuts (fun v => V.list [.leaf 9, v]) fn fuel ops inp).map showHOut)
+        | _, _ => "bad-input"
+  | _ => "bad-input"
+
 def intArith : Arith Int := ⟨(· + ·), (· - ·), (· * ·), (· / ·), (- ·)⟩
 
 def numOfTok (t : Tok) : Int :=
